@@ -1540,6 +1540,15 @@ impl AuthSession {
                     webauthn,
                     pw_badlist,
                 ) {
+                    // The validity window was checked when the session started, but the
+                    // account may have expired since. Never issue a token outside of it.
+                    CredState::Success { .. } if !self.account.is_within_valid_time(time) => {
+                        security_info!("account expired during the authentication session");
+                        (
+                            Some(AuthSessionState::Denied(ACCOUNT_EXPIRED)),
+                            Ok(AuthState::Denied(ACCOUNT_EXPIRED.to_string())),
+                        )
+                    }
                     CredState::Success {
                         auth_type,
                         cred_id,
